@@ -227,7 +227,7 @@ theorem fails_not_accepted {env : Env} {ty : GoTy} {d : Json} (h : FailsAt env t
         simp only [runMethod, hbody]
         have := ih f
         unfold enumCarrierTy at this
-        cases hd : decode .json env f (match dd.ty with | .strct [fl] => fl.ty | c => c) j with
+        cases hd : decode .json env f (enumCarrierOf dd.ty) j with
         | error e => simp only; exact not_accepted_error _
         | ok v => exact absurd ⟨v, hd⟩ this
   | @here n dd vs kvs k hres hbody hk hl =>
